@@ -18,7 +18,7 @@ LOCAL UMAXN == "ffffffffffffffff"
 ProdFuns == {"mpn_mul", "mpn_mul_n", "mpn_sqr", "mpn_mul_basecase", "mpn_sqr_basecase", "mpn_kara_mul_n", "mpn_kara_sqr_n",
              "mpn_toom3_mul_n", "mpn_toom3_sqr_n", "mpn_toom3_mul", "mpn_toom4_mul_n", "mpn_toom4_sqr_n", "mpn_toom4_mul",
              "mpn_toom8h_mul", "mpn_toom8_sqr_n", "mpn_toom42_mul", "mpn_toom32_mul", "mpn_toom53_mul",
-             "mpn_mul_fft_main", "mpn_mul_trunc_sqrt2", "mpn_mul_mfa_trunc_sqrt2", "mpn_mul_2"}
+             "mpn_mul_fft_main", "mpn_mul_trunc_sqrt2", "mpn_mul_mfa_trunc_sqrt2"}
 LogicFuns == {"mpn_and_n", "mpn_andn_n", "mpn_nand_n", "mpn_ior_n", "mpn_iorn_n", "mpn_nior_n", "mpn_xor_n", "mpn_xnor_n"}
 LOCAL NotN(v, n) == ZSub(ZSub(Bn(n), "1"), v)
 LOCAL Logic(f, a, b, n) ==
@@ -53,6 +53,16 @@ PostN(f, i, o) ==
      [] f = "mpn_addadd_n" -> ZAdd(o.r, ZMul(o.cy, Bn(i.n))) = ZAdd(ZAdd(i.a, i.b), i.c) /\ Fits(o.r, i.n)
      [] f = "mpn_addsub_n" -> ZAdd(o.r, ZMul(ZFromInt(o.cyi), Bn(i.n))) = ZSub(ZAdd(i.a, i.b), i.c) /\ Fits(o.r, i.n)
      [] f = "mpn_subadd_n" -> ZSub(o.r, ZMul(o.cy, Bn(i.n))) = ZSub(ZSub(i.a, i.b), i.c) /\ Fits(o.r, i.n)
+        \* kernels that exist only as assembly in some CPU directories (C14): reference = their defining identity
+     [] f = "mpn_addlsh_n" -> ZAdd(o.r, ZMul(o.cy, Bn(i.n))) = ZAdd(i.a, ZShl(i.b, i.c)) /\ Fits(o.r, i.n)
+     [] f = "mpn_sublsh_n" -> ZSub(o.r, ZMul(o.cy, Bn(i.n))) = ZSub(i.a, ZShl(i.b, i.c)) /\ Fits(o.r, i.n)
+     [] f = "mpn_rsh1add_n" -> ZAdd(ZShl(o.r, 1), o.cy) = ZAdd(i.a, i.b) /\ o.cy \in {"0", "1"}
+     [] f = "mpn_rsh1sub_n" -> \* two's complement: borrow shows as the top bit of the result
+           ZAdd(ZShl(o.r, 1), o.cy) = ZLowBits(ZSub(i.a, i.b), W * i.n + 1) /\ o.cy \in {"0", "1"} /\ Fits(o.r, i.n)
+     [] f = "mpn_lshiftc" -> o.r = NotN(ZLowBits(ZShl(i.a, i.cnt), W * i.n), i.n) /\ o.cy = ZShr(ZShl(i.a, i.cnt), W * i.n)
+     [] f = "mpn_store" -> o.r = ZTDivQ(ZMul(i.val, ZSub(Bn(i.n), "1")), ZSub(Bn(1), "1"))      \* n copies of the limb
+     [] f \in {"mpn_mul_2", "mpn_addmul_2"} -> ZAdd(o.r, ZMul(o.cy, Bn(i.n + 1))) = ZAdd(i.r0, ZMul(i.a, i.b)) /\ Fits(o.r, i.n + 1)
+     [] f = "mpn_divrem_euclidean_qr_1" -> ZAdd(ZMul(o.q, i.d), o.r) = i.n /\ ZLt(o.r, i.d)
      [] f = "mpn_sumdiff_n" -> /\ ZAdd(o.s, ZMul(ZFromInt(o.ret \div 2), Bn(i.n))) = ZAdd(i.a, i.b)
                                /\ ZSub(o.d, ZMul(ZFromInt(o.ret % 2), Bn(i.n))) = ZSub(i.a, i.b)
                                /\ Fits(o.s, i.n) /\ Fits(o.d, i.n)
